@@ -592,6 +592,55 @@ class C05(verif.Spec):
         plan += [base + " asan extra", base + " nosan", " ".join(f[:-1]), " ".join(f[:-3]), base.replace("bslice", "bslic")]
         return self.claim_pass(plan)
 
+    @staticmethod
+    def legacy_limits(r, rate):
+        """(data_samples, look_ahead, signal length in samples) of vbi_bit_slicer_init for table row r, from the parameters alone"""
+        fb, pl, cr, br, mod = r["frc_bits"], r["payload"], r["cri_rate"], r["bit_rate"], r["modulation"]
+        ds = rate * (pl + fb) // br
+        step = rate * 256 // br
+        phase = (128 * rate * br + (64 if mod >= 2 else 128) * rate * cr + 128 * cr * br) // (cr * br)
+        bits = pl + fb
+        la = ((phase + (bits - 1 if bits > 0 else 0) * step) >> 8) + 1
+        siglen = rate * r["cri_bits"] // cr + ds + 1
+        return ds, la, siglen
+
+    def gen_lshort(self, rng, tier):
+        """legacy slicer x every service x line lengths from 1 to signal length + 64 (every length around the two limits
+        vbi_bit_slicer_init computes - look_ahead and data_samples - and between them, a spread elsewhere; thorough: every
+        length) x blank / saturated / noise lines of exactly that length: vbi_bit_slicer_init has no failure path, it must
+        leave a slicer that stays inside the line however short the line is"""
+        q = tier == "quick"
+        rows = self.rows()
+        plan = []
+        for ri, r in enumerate(rows):
+            if not r["cri_bits"] or not r["cri_rate"] or not r["bit_rate"]:
+                continue
+            mx = max(r["cri_rate"], r["bit_rate"])
+            rates = [13500000, rng.choice([14750000, 17734475, 27000000, 28636363, 35468950, int(mx * (1.5 + rng.random() * 6))])]
+            for rate in rates:
+                if rate < mx:
+                    continue
+                ds, la, siglen = self.legacy_limits(r, rate)
+                top = min(siglen + 64, 32767)
+                lo, hi = min(la, ds), max(la, ds)
+                lens = set(range(max(1, lo - 4), min(top, lo + 5) + 1)) | set(range(max(1, hi - 4), min(top, hi + 5) + 1))
+                if hi - lo <= 48:
+                    lens |= set(range(max(1, lo), min(top, hi) + 1))
+                else:
+                    lens |= {rng.randrange(lo, hi + 1) for _ in range(12)}
+                lens |= {1, 2, 3, top, siglen} | {rng.randrange(1, top + 1) for _ in range(8 if q else 0)}
+                if not q:
+                    lens |= set(range(1, top + 1)) if rate == 13500000 else set(range(1, top + 1, 7))
+                fmt = 1 if rate == 13500000 or rng.random() < 0.5 else rng.choice(GOOD_FMTS)
+                for raw in sorted(x for x in lens if 1 <= x <= top):
+                    for sig in ("blank", "sat%d" % rng.choice([255, 255, 0, rng.randrange(256)]), "noise"):
+                        if q and rng.random() < 0.25 and not (lo - 2 <= raw <= hi + 2):
+                            continue
+                        plan.append("lslice %d %d %d %d %d 0x%x 0x%x %d %d %d %d %s 0 0 %d ?" % (
+                            fmt, raw, rate, r["cri_rate"], r["bit_rate"], r["cri_frc"], r["cri_frc_mask"], r["cri_bits"],
+                            r["frc_bits"], r["payload"], r["modulation"], sig, rng.randrange(1, 1 << 30)))
+        return self.claim_pass(plan)
+
     def gen_cases(self, rng, tier):
         q = tier == "quick"
         cases = []
@@ -607,6 +656,9 @@ class C05(verif.Spec):
         ops += self.gen_slice_malformed(rng, 500 if q else 4000)
         for i in range(0, len(ops), 12):
             cases.append(ops[i:i + 12])
+        ops = self.gen_lshort(rng, tier)
+        for i in range(0, len(ops), 30):
+            cases.append(ops[i:i + 30])
         ops = self.gen_bslice(rng, tier)
         for i in range(0, len(ops), 25):
             cases.append(ops[i:i + 25])
@@ -721,6 +773,11 @@ class C05(verif.Spec):
             return "bslice inconsistent result %s" % " ".join(g)
         return None
 
+    def legacy_repaired(self):
+        if getattr(self, "_legacy_repaired", None) is None:
+            self._legacy_repaired = self.variant().get("decoder.c", "").startswith("tight")
+        return self._legacy_repaired
+
     def oracle(self, case, out):
         st = self.__dict__.setdefault("_ostats", {})
         for op, o in zip(case, out):
@@ -754,8 +811,12 @@ class C05(verif.Spec):
                     kind = "lp" if self.is_lp(f) else "core"
                 else:
                     payload_bits = int(f[10], 0)
-                    # legacy init has no failure path: the caller must pass enough samples for FRC + payload
-                    pre = g[1] != "wrapped"
+                    # vbi_bit_slicer_init has no failure path.  As released the caller had to pass enough samples for
+                    # FRC + payload (else the unsigned search limit wrapped); the repaired function (F7) clamps the limit
+                    # at zero for any line length (theorems legacy_reads_in_line, legacy_cri_bytes_in_range), so a
+                    # wrapped limit - the harness then measures on the real code how far the search runs - is judged
+                    # like any other read beyond the line
+                    pre = g[1] != "wrapped" or self.legacy_repaired()
                     kind = "legacy"
                 if not pre:
                     continue
